@@ -37,13 +37,26 @@ def _fresh_locals(fn):
         params.add(fn.args.vararg.arg)
     if fn.args.kwarg:
         params.add(fn.args.kwarg.arg)
+    aliases = {}
     for t, st in stores_in(ast.Module(body=fn.body, type_ignores=[])):
         if isinstance(t, ast.Name) and isinstance(st, (ast.Assign, ast.AnnAssign)) and st.value is not None:
             v = st.value
             ok = isinstance(v, (ast.Dict, ast.List, ast.Set, ast.DictComp, ast.ListComp, ast.SetComp)) or (
                 isinstance(v, ast.Call) and (call_name(v) or "").split(".")[-1] in FRESH_CALLS) or (
                 isinstance(v, ast.Call) and isinstance(v.func, ast.Attribute) and v.func.attr == "__new__")
+            if not ok and isinstance(v, ast.Name) and v.id != t.id:
+                aliases.setdefault(t.id, set()).add(v.id)       # `x = y`: as fresh as y (decided below)
+                fresh.setdefault(t.id, True)
+                continue
             fresh[t.id] = fresh.get(t.id, True) and ok
+    # a local bound to another local of this function that only ever holds objects built here is as fresh as that one
+    changed = True
+    while changed:
+        changed = False
+        for k, srcs in aliases.items():
+            if fresh.get(k) and not all(fresh.get(s_) and s_ not in params for s_ in srcs):
+                fresh[k] = False
+                changed = True
     return {k for k, v in fresh.items() if v and k not in params}, params
 
 
@@ -164,16 +177,30 @@ def run(ck, m):
     ret_self = [s for s in init.body if isinstance(s, ast.If) and norm(s.test) == "init_render_args is self" and isinstance(s.body[0], ast.Return)]
     ck.ob("R3", init, len(ret_interned) == 1 and ret_interned[0].lineno < mline, "the early return for an already initialised interned default must precede the (re)initialisation", stmt="RenderArgs.__init__: return if already interned")
     ck.ob("R3", init, len(ret_self) == 1 and ret_self[0].lineno < mline, "the early return for `init_render_args is self` (object returned by __new__) must precede the (re)initialisation", stmt="RenderArgs.__init__: return if init_render_args is self")
-    cond_init = next((s.test for s in init.body if isinstance(s, ast.If) and "not namespaces" in norm(s.test)), None)
-    outer = next((s for s in new.body if isinstance(s, ast.If) and norm(s.test) == "not namespaces"), None)
-    cond_new = outer.body[0].test if outer is not None and isinstance(outer.body[0], ast.If) else None
-    ck.need(cond_init is not None and cond_new is not None, "default-only conditions of __new__/__init__ not recognised")
-    ci = norm(cond_init)
-    if isinstance(cond_init, ast.BoolOp) and isinstance(cond_init.op, ast.And) and norm(cond_init.values[0]) == "not namespaces":
-        ci = norm(cond_init.values[1]) if len(cond_init.values) == 2 else norm(ast.BoolOp(op=ast.And(), values=cond_init.values[1:]))
-    ci = ci.replace("type(self)", "cls")
-    ck.ob("R3", outer, norm(cond_new) == ci,
-          f"the 'default namespaces only' test differs between __new__ (`{norm(cond_new)}`) and __init__ (`{ci}`): an object returned from the intern table by "
+    # the 'default namespaces only' situation must be the same in __new__ (where the interned object is returned) and in __init__
+    # (where its re-initialisation is skipped): compared as the traced conjuncts (tiv.sem.tconds) that mention namespaces / init_render_args
+    from tiv.sem import _bool, tconds, trace as _trace
+    ret_new = [s_ for s_ in body_walk(new) if isinstance(s_, ast.Return) and s_.value is not None and "_interned" in norm(_trace(new, s_.value)) and "init_render_args" not in norm(_trace(new, s_.value))]
+    ck.need(len(ret_new) == 1 and len(ret_interned) == 1, "default-only conditions of __new__/__init__ not recognised")
+
+    def default_only(fn, node):
+        out = set()
+        for l_ in tconds(fn, node, keep=("namespaces", "init_render_args", "render_cls")):
+            if "namespaces" in l_ or "init_render_args" in l_:
+                out.add(_bool(ast.parse(l_.replace("type(self)", "cls"), mode="eval").body))
+        return out
+    dn, di = default_only(new, ret_new[0]), default_only(init, ret_interned[0])
+    # what __new__ knows only because it validated its arguments first (`if <bad>: raise`) is not part of the situation test
+    from tiv.sem import truth_nnf
+    KEEPN = ("namespaces", "init_render_args", "render_cls")
+    for s_ in new.body:
+        if isinstance(s_, ast.If) and s_.body and isinstance(s_.body[-1], ast.Raise) and not s_.orelse:
+            f_ = truth_nnf(_trace(new, s_.test, keep=KEEPN), neg=True)
+            for v_ in (f_.values if isinstance(f_, ast.BoolOp) and isinstance(f_.op, ast.And) else [f_]):
+                dn.discard(_bool(v_))
+    ck.expect(len(dn) >= 2, f"RenderArgs.__new__: default-only conditions recognised: {len(dn)}")
+    ck.ob("R3", ret_new[0], dn == di,
+          f"the 'default namespaces only' test differs between __new__ and __init__ ({len(dn ^ di)} differing condition(s)): an object returned from the intern table by "
           f"__new__ would be re-initialised by __init__ (or vice versa)", stmt="RenderArgs: default-only condition of __new__ == __init__")
 
     # ---- R4 ----------------------------------------------------------------------------
@@ -184,8 +211,10 @@ def run(ck, m):
           "the initial set's namespaces must be written after the defaults and before the explicit namespaces", stmt="RenderArgs.__init__: defaults < initial set < namespaces")
     ck.ob("R4", loop, norm(loop.iter) in ("enumerate(namespaces)", "namespaces"), f"namespaces must be applied in argument order (last wins); found `{norm(loop.iter)}`", stmt="RenderArgs.__init__: argument order")
     test = next((s for s in loop.body if isinstance(s, ast.If) and any(isinstance(x, ast.Raise) for x in s.body)), None)
-    write = next((s for s in loop.body if isinstance(s, ast.Assign) and norm(s.targets[0]) == f"{DV}[namespace._RENDER_CLS]"), None)
-    ck.ob("R4", loop, test is not None and write is not None and test.lineno < write.lineno and norm(test.test) == f"namespace._RENDER_CLS not in {DV}"
+    # (keys compared as traced expressions: the namespace's render class may be held in a loop local)
+    write = next((s for s in loop.body if isinstance(s, ast.Assign) and isinstance(s.targets[0], ast.Subscript) and norm(s.targets[0].value) == DV
+                  and norm(_trace(init, s.targets[0].slice, keep=(DV, "namespace"))) == "namespace._RENDER_CLS"), None)
+    ck.ob("R4", loop, test is not None and write is not None and test.lineno < write.lineno and norm(_trace(init, test.test, keep=(DV, "namespace"))) == f"namespace._RENDER_CLS not in {DV}"
           and "IncompatibleArgsNamespaceError" in norm(test.body[0]) and norm(write.value) == "namespace",
           "each namespace must be tested for compatibility (its render class is a key of the dict) before it is written, raising IncompatibleArgsNamespaceError", stmt="RenderArgs.__init__: compatibility test before write")
     inc = next((s for s in new.body if isinstance(s, ast.If) and any(isinstance(x, ast.Raise) and "IncompatibleRenderArgsError" in norm(x) for x in s.body)), None)
